@@ -134,10 +134,11 @@ theorem ed_int (env : Env) (f n : Nat) : ED (decode env (f + 1) (.int n)) (encod
         obtain ⟨e, hlen⟩ := readBits_inv hr2
         refine ⟨bs, e, ?_⟩
         intro b b' he
-        simp only [encode, Builder.writeInt] at he
+        simp only [encode] at he
         have h1 : 1 ≤ bs.length := by omega
         obtain ⟨lo, hi⟩ := bitsToInt_range bs h1
         subst hlen
+        rw [Builder.writeInt_repr _ _ _ h1 lo hi] at he
         rw [intBitsGo_eq bs.length (bitsToInt bs) h1 (by omega) lo hi, intToBits_bitsToInt bs h1] at he
         exact Builder.writeBits_ok he
 
